@@ -28,6 +28,7 @@ def dispatch (cmd : String) (args : List Sexp) : Option String :=
   | "min.applyast" => Driver.PyCore.minApply args
   | "min.full" => Driver.PyCore.minFull args
   | "exports.findall" => Driver.Exports.findAllCmd args
+  | "inplace.fn" => Driver.InPlace.fnCmd args
   | "hoist.place" => Driver.Rename.hoistPlace args
   | "rename.assign" => Driver.Rename.assignCmd args
   | "ministring" => Driver.Strings.ministring args
